@@ -165,7 +165,13 @@ func buildMsg(m C18Msg) (any, error) {
 		case "insert":
 			cm, err = state.Insert(key, sOrder(m.V))
 		case "update":
-			cm, err = state.UpdateWithOldValue(key, sOrder(m.V), sOrder(m.V+1))
+			// the producer's idea of the old value is only a hint: here it is sometimes the new value itself (an
+			// "update" that the producer believes to be a no-op), whatever the collection holds at that point
+			old := sOrder(m.V + 1)
+			if m.V%3 == 0 {
+				old = sOrder(m.V)
+			}
+			cm, err = state.UpdateWithOldValue(key, sOrder(m.V), old)
 		default:
 			cm, err = state.DeleteWithOldValue(key, sOrder(m.V))
 		}
